@@ -16,7 +16,13 @@ def showNow : ShowCfg :=
     strDefault := CelloGen.Fmt.strShowDefault, strEsc := CelloGen.Fmt.strShowEsc
     arrOpen := CelloGen.Fmt.arrayShowOpen, arrSep := CelloGen.Fmt.arrayShowSep, arrClose := CelloGen.Fmt.arrayShowClose
     tupOpen := CelloGen.Fmt.tupleShowOpen, tupSep := CelloGen.Fmt.tupleShowSep, tupClose := CelloGen.Fmt.tupleShowClose
-    lstOpen := CelloGen.Fmt.listShowOpen, lstSep := CelloGen.Fmt.listShowSep, lstClose := CelloGen.Fmt.listShowClose }
+    lstOpen := CelloGen.Fmt.listShowOpen, lstSep := CelloGen.Fmt.listShowSep, lstClose := CelloGen.Fmt.listShowClose
+    tblOpen := CelloGen.Fmt.tableShowOpen, tblPair := CelloGen.Fmt.tableShowPair, tblSep := CelloGen.Fmt.tableShowSep, tblClose := CelloGen.Fmt.tableShowClose
+    treOpen := CelloGen.Fmt.treeShowOpen, trePair := CelloGen.Fmt.treeShowPair, treSep := CelloGen.Fmt.treeShowSep, treClose := CelloGen.Fmt.treeShowClose
+    rngOpen := CelloGen.Fmt.rangeShowOpen, rngItem := CelloGen.Fmt.rangeShowItem, rngSep := CelloGen.Fmt.rangeShowSep, rngClose := CelloGen.Fmt.rangeShowClose
+    slcOpen := CelloGen.Fmt.sliceShowOpen, slcSep := CelloGen.Fmt.sliceShowSep, slcClose := CelloGen.Fmt.sliceShowClose
+    boxFmt := CelloGen.Fmt.boxShowFmt, nullFmt := CelloGen.Fmt.nullShowFmt, defaultFmt := CelloGen.Fmt.defaultShowFmt
+    typeOff := CelloGen.Fmt.typeShowReturnsOffset }
 
 /-- the kinds of the dispatch `if`s that fire for conversion character `c`, in source order -/
 def firing (cfg : Cfg) (c : Char) : List Kind := (cfg.disp.filter fun mk => mk.1.hit c).map (·.2)
@@ -24,12 +30,31 @@ def firing (cfg : Cfg) (c : Char) : List Kind := (cfg.disp.filter fun mk => mk.1
 /-- all conversion characters of the property's grammar -/
 def grammarConvs : Str := intConvs ++ fltConvs ++ ['c', 's', 'p', '$']
 
-/-- a test "libc" for examples: literals verbatim, `%%` → `%`, a value as a tag -/
-def primTest : Str → PVal → Str
-  | f, .none => if f = ['%', '%'] then ['%'] else f
-  | _, .cstr s => s
-  | _, .i64 v => if v < 0 then ['-', 'n'] else ['n']
-  | _, .dbl _ => ['f']
-  | _, .ptr => ['p']
+/-- the statements of `String_Format_To` as read from src/String.c -/
+def stepsNow : List SStep := CelloGen.Fmt.stringFormatToSteps.map SStep.ofCode
+
+/-- one `format_to` call with the code that is in /repo now, for any libc -/
+def primNow (libc : Libc) : Prim := { toLibc := libc, strSteps := stepsNow }
+
+/-- `String_Format_To` BEFORE fix a626877: no `if (size < 0) { return size; }` between the measuring `vsnprintf` and the `realloc` -/
+def stepsOld : List SStep := [.measure, .allocCheck, .realloc, .memCheck, .write]
+
+/-- the OLD variant of one `format_to` call (kept for the regression witness corpus/fmt_fixed_libc_reject.ops) -/
+def primOld (libc : Libc) : Prim := { toLibc := libc, strSteps := stepsOld }
+
+/-- a test "libc" for examples: literals verbatim, `%%` → `%`, a value as a tag; it rejects `%lc` with a value the "C"
+    locale cannot encode (outside 0 … 127) and nothing else -/
+def libcTest : Libc where
+  text
+    | f, .none => if f = ['%', '%'] then ['%'] else f
+    | _, .cstr s => s
+    | _, .i64 v => if v < 0 then ['-', 'n'] else ['n']
+    | _, .dbl _ => ['f']
+    | _, .ptr => ['p']
+  rej
+    | f, .i64 v => decide (f = ['%', 'l', 'c'] ∧ (v < 0 ∨ 127 < v))
+    | _, _ => false
+
+def primTest : Prim := primNow libcTest
 
 end Cello.Fmt
